@@ -7,12 +7,14 @@ import (
 	"encoding/json"
 	"fmt"
 	"os"
+	"path/filepath"
 	"sort"
 	"strconv"
 	"sync"
 	"time"
 
 	"github.com/brutella/hc/accessory"
+	"github.com/brutella/hc/util"
 
 	"hcverif/ref"
 )
@@ -23,6 +25,7 @@ type e2Step struct {
 	A string      `json:"a"`
 	K string      `json:"conn"`
 	X interface{} `json:"x"`
+	K2 string     `json:"k2"`
 }
 
 type e2Conn struct {
@@ -117,7 +120,7 @@ func runE2E(b Beh, seed int64) ([]J, error) {
 		if err := json.Unmarshal(raw, &s); err != nil {
 			return nil, err
 		}
-		o := J{"ev": "step", "case": b.ID, "i": i, "a": s.A, "k": s.K, "x": fmt.Sprint(s.X), "res": "none", "running": tr != nil, "skipped": false, "got": []string{}, "sf": 0, "paired": []string{}, "val": 0}
+		o := J{"ev": "step", "case": b.ID, "i": i, "a": s.A, "k": s.K, "x": fmt.Sprint(s.X), "res": "none", "running": tr != nil, "skipped": false, "got": []string{}, "sf": 0, "paired": []string{}, "val": 0, "k2": "none", "vres": "none", "realised": false}
 		if tr == nil && s.A != "Start" {
 			o["skipped"] = true
 			lines = append(lines, o)
@@ -228,6 +231,66 @@ func runE2E(b Beh, seed int64) ([]J, error) {
 			default:
 				o["res"] = "ok"
 			}
+		case "RemoveDuring":
+			// the pairing of X is removed on K while K2 runs pair-verify as X: the removal is parked at the beginning of the
+			// storage operation, the verification runs, the removal goes on
+			cs, err := conn(s.K)
+			if err != nil {
+				return nil, err
+			}
+			cs2, err := conn(s.K2)
+			if err != nil {
+				return nil, err
+			}
+			o["k2"] = s.K2
+			gate := armStorageGate(tr.Dir)
+			type res struct {
+				m   *ref.Msg
+				err error
+			}
+			rc := make(chan res, 1)
+			go func() {
+				var t ref.TLV
+				t.AddByte(ref.TagState, 1)
+				t.AddByte(ref.TagMethod, 4)
+				t.Add(ref.TagIdentifier, []byte(ids[fmt.Sprint(s.X)].Name))
+				cs.c.Timeout = 12 * time.Second
+				m, err := cs.c.Do("POST", "/pairings", ref.CTTLV, t.Encode())
+				rc <- res{m, err}
+			}()
+			var early *res
+			select {
+			case <-gate.arrived:
+				o["realised"] = true
+			case r := <-rc:
+				early = &r // refused before it reached the storage (or nothing to remove)
+			case <-time.After(3 * time.Second):
+			}
+			vc := &ref.VerifyClient{ID: ids[fmt.Sprint(s.X)], Rnd: rndFunc(rng)}
+			if verr := vc.Run(cs2.c, tr.AccessoryLTPK()); verr == nil {
+				cs2.verified = true
+				tr.WaitEncrypted(cs2.local)
+				o["vres"] = "ok"
+			} else {
+				o["vres"] = "refused"
+			}
+			gate.open()
+			var r res
+			if early != nil {
+				r = *early
+			} else {
+				r = <-rc
+			}
+			switch {
+			case r.err != nil:
+				o["res"] = "dropped"
+				cs.c.Close()
+				delete(conns, s.K)
+			case r.m.Status >= 300:
+				o["res"] = "refused"
+			default:
+				o["res"] = "ok"
+			}
 		case "Close":
 			if cs, ok := conns[s.K]; ok {
 				cs.c.Close()
@@ -292,4 +355,60 @@ func e2eFamily(a *Args) error {
 	}
 	fmt.Printf("e2e: %d end-to-end histories replayed on real transports, %d trace lines\n", len(behs), tr.n)
 	return tr.Close()
+}
+
+// storage gates: a storage operation of the accessory whose directory has a gate armed parks at its beginning until the
+// gate is opened (hook util.VerifStoragePoint; at most 10 s).
+type storageGate struct {
+	dir     string
+	arrived chan struct{}
+	release chan struct{}
+	once    sync.Once
+}
+
+var (
+	sgMu    sync.Mutex
+	sgGates = map[string]*storageGate{}
+)
+
+func (g *storageGate) open() {
+	g.once.Do(func() {
+		sgMu.Lock()
+		delete(sgGates, g.dir)
+		sgMu.Unlock()
+		close(g.release)
+	})
+}
+
+func armStorageGate(dir string) *storageGate {
+	d, _ := filepath.Abs(dir)
+	g := &storageGate{dir: d, arrived: make(chan struct{}, 1), release: make(chan struct{})}
+	sgMu.Lock()
+	sgGates[d] = g
+	sgMu.Unlock()
+	return g
+}
+
+func init() {
+	util.VerifStoragePoint = func(name, dir string) {
+		if name != "delete:begin" {
+			return
+		}
+		d, _ := filepath.Abs(dir)
+		sgMu.Lock()
+		g := sgGates[d]
+		sgMu.Unlock()
+		if g == nil {
+			return
+		}
+		select {
+		case g.arrived <- struct{}{}:
+		default:
+			return // a second operation while the gate is taken passes
+		}
+		select {
+		case <-g.release:
+		case <-time.After(10 * time.Second):
+		}
+	}
 }
